@@ -668,13 +668,19 @@ func validateRegexp(isStrings bool, reg string) (func(value reflect.Value) error
 }
 
 func (param *Param) fixStatus(stat *erpc.Status) *erpc.Status {
+	if param.statMsg == "" && param.statCode == 0 {
+		return stat
+	}
+	// NOTE: the ErrorFunc may hand out the same status object for every failure,
+	// so the `stat` tag is applied to a copy, never to the object itself.
+	fixed := stat.Copy(nil)
 	if param.statMsg != "" {
-		stat.SetMsg(param.statMsg)
+		fixed.SetMsg(param.statMsg)
 	}
 	if param.statCode != 0 {
-		stat.SetCode(param.statCode)
+		fixed.SetCode(param.statCode)
 	}
-	return stat
+	return fixed
 }
 
 func convertAssign(dest reflect.Value, src []string) (err error) {
